@@ -24,7 +24,7 @@ RULE = (
 TRUSTED_BASE = [
 	'Lean 4.33 kernel; axioms of the property theorems: subset of {propext, Classical.choice, Quot.sound}',
 	'byte identity of the two 350 KB modules is an executed comparison, not a theorem (string literals of that size do not elaborate)',
-	'yaml stand-in in /verif/shims (catparser.__main__ imports yaml; --quiet runs never dump YAML)',
+	'yaml stand-in in /verif/shims (catparser.__main__ imports yaml; the runs without --quiet dump the descriptors with it, the dump itself is not compared)',
 	'emission plan model SymbolVerif/Model/Codec/Emission.lean is a port of the whole text-producing code of sdk/python/generator over the independent IR (moduleLines); its equality with the generator output is an executed comparison per schema (both shipped sets here, random schemas in C15), not a theorem about the Python generator',
 ]
 ASSUMPTIONS = ['the generator is run with /venv/bin/python; other interpreter versions are out of scope']
@@ -50,7 +50,7 @@ def stale_content(style, expected, other_module):
 	}[style]
 
 
-def run_generator(network, hash_seed, cwd, relative, output, extra_env=None):
+def run_generator(network, hash_seed, cwd, relative, output, extra_env=None, quiet=True):
 	schemas = os.path.join(REPO, 'catbuffer', 'schemas', network)
 	schema, include = os.path.join(schemas, 'all_generated.cats'), schemas
 	if relative:
@@ -62,7 +62,9 @@ def run_generator(network, hash_seed, cwd, relative, output, extra_env=None):
 	})
 	env.update(extra_env or {})
 	command = [
-		'/venv/bin/python', '-m', 'catparser', '--schema', schema, '--include', include, '--output', output, '--quiet', '--generator', 'generator.Generator']
+		'/venv/bin/python', '-m', 'catparser', '--schema', schema, '--include', include, '--output', output, '--generator', 'generator.Generator']
+	if quiet:
+		command.insert(-2, '--quiet')  # (without it the parsed descriptors are also dumped as YAML on the console)
 	proc = subprocess.run(command, cwd=cwd, env=env, capture_output=True, text=True, timeout=300, check=False)
 	return proc
 
@@ -239,8 +241,9 @@ def run(ctx):
 					outfile.write(stale_content(stale, shipped, other_module))
 				with open(os.path.join(output, 'stale.txt'), 'wt', encoding='utf8') as outfile:
 					outfile.write('stale')
-			proc = run_generator(network, seed, cwd, relative, output)
-			config = {'network': network, 'hash_seed': seed, 'cwd': os.path.relpath(cwd, REPO) if cwd.startswith(REPO) else '<scratch>', 'relative_paths': relative, 'stale_output': stale or None}
+			quiet = 0 != index % 5  # every fifth configuration runs without --quiet: the console dump must not influence the module
+			proc = run_generator(network, seed, cwd, relative, output, quiet=quiet)
+			config = {'quiet': quiet, 'network': network, 'hash_seed': seed, 'cwd': os.path.relpath(cwd, REPO) if cwd.startswith(REPO) else '<scratch>', 'relative_paths': relative, 'stale_output': stale or None}
 			ctx.case(tuple(sorted(config.items())), config if index < 2 else None)
 			ctx.count(f'runs:{network}')
 			if 0 != proc.returncode:
